@@ -148,6 +148,21 @@ pub fn execute(case: &str) -> String {
             };
             format!("wire {} back {}", render_map(&h), back)
         }
+        Some("rth") => {
+            // trailers-only response: Status::into_http writes content-type first
+            let st = match parse_status(&mut it) {
+                Some(s) => s,
+                None => return "bad-case".into(),
+            };
+            let resp = st.into_http::<()>();
+            let h = resp.headers().clone();
+            let back = match guarded_opt(|| Status::from_header_map(&h)) {
+                None => "panic".to_string(),
+                Some(None) => "none".to_string(),
+                Some(Some(st)) => format!("st {}", render_status(&st)),
+            };
+            format!("wire {} back {}", render_map(&h), back)
+        }
         Some("infer") => {
             let http: u16 = it.next().unwrap().parse().unwrap();
             let nf: usize = it.next().unwrap().parse().unwrap();
@@ -508,7 +523,9 @@ pub fn generate(tier: &str, rng: &mut Rng) -> Vec<String> {
         let msg = gen_message(rng);
         let det = gen_details(rng);
         let md = gen_entries(rng, 6);
-        if i % 4 == 3 {
+        if i % 8 == 5 {
+            out.push(format!("rth {}", status_tok(code, &msg, &det, &md)));
+        } else if i % 4 == 3 {
             let h0 = gen_entries(rng, 4);
             out.push(format!("enc {} {}", status_tok(code, &msg, &det, &md), entries_tok(&h0)));
         } else {
